@@ -78,8 +78,8 @@ def main(argv=None):
             return selftest.run()
         if a.extras:
             common.use_repo()
-            from . import props_objects
-            return props_objects.run(a.tier)
+            from . import props_objects, props_show
+            return max(props_objects.run(a.tier), props_show.run(a.tier))
         reg = registry()
         if a.pid not in reg:
             print(f'unknown property {a.pid}; known: {sorted(reg)}')
